@@ -281,7 +281,7 @@ pub fn run(ctx: &Ctx) -> (Report, String) {
     if ctx.is_main() {
         let m = ctx.scale_pct;
         rep.require("headers_matched", if thorough { 40_000_000 } else { 3_000_000 } * m / 100);
-        for k in ["sweep:sor-custom8", "sweep:ptype-lowbits", "sweep:opptype-bits", "sweep:cpfmt", "sweep:par", "sweep:cpcfc-etr", "sweep:uui-sss", "sweep:layers", "sweep:rps", "sweep:pb", "inheritance_pairs", "marker_flips_rejected", "decoded_picture_header_checked", "decoded_picture_header_checked_in_history", "sweep:pei-ladder", "gob_probes_ok", "late_delivery_headers_matched", "header_chains_completed", "chain:ufep0-after-baseline-with-modes", "chain:ufep0-after-ufep0-with-modes", "chain:ufep0-at-depth-3", "decoded_without_restated_format", "decoded_without_restated_format_twice_in_a_row"] {
+        for k in ["sweep:sor-custom8", "sweep:ptype-lowbits", "sweep:opptype-bits", "sweep:cpfmt", "sweep:par", "sweep:cpcfc-etr", "sweep:uui-sss", "sweep:layers", "sweep:rps", "sweep:pb", "inheritance_pairs", "marker_flips_rejected", "decoded_picture_header_checked", "decoded_picture_header_checked_in_history", "sweep:pei-ladder", "gob_probes_ok", "late_delivery_headers_matched", "header_chains_completed", "chain:ufep0-after-baseline-with-modes", "chain:ufep0-after-ufep0-with-modes", "chain:ufep0-at-depth-3", "decoded_without_restated_format", "decoded_without_restated_format_twice_in_a_row", "decoded_intra_only_predicted_picture_of_new_size", "headers_followed_by_stuffing_matched"] {
             rep.require(k, if k == "sweep:pei-ladder" { 20 } else { 40 });
         }
         {
@@ -778,6 +778,54 @@ fn shard(ctx: &Ctx, s: usize, n_random: u64, thorough: bool, rep: &mut Report) {
             }
         }
     }
+    // ---- a header is followed by macroblock data, which may begin with MCBPC stuffing: the header ends where it ends ----
+    if s == 63 {
+        set("header followed by stuffing");
+        for i in 0..ctx.n(600, 12000) {
+            let sorenson = i % 2 == 0;
+            let mut w = BitWriter::new();
+            let (exp_view, inter) = if sorenson {
+                let mut h = base_sor(&mut rng);
+                h.ptype = rng.below(3) as u8;
+                h.pei = (0..*rng.pick(&[0usize, 0, 1, 3])).map(|_| rng.byte()).collect();
+                h.encode(&mut w);
+                (h.view(), h.ptype != 0)
+            } else {
+                let plus = rng.chance(1, 2);
+                let mut h = random_std(&mut rng, plus);
+                if let Some(pl) = h.plus.as_mut() {
+                    pl.ptype = rng.below(2) as u8;
+                }
+                h.encode(&mut w, false, &Inherited::default());
+                let inter = h.plus.as_ref().map(|p| p.ptype != 0).unwrap_or(h.inter);
+                (h.view(false, &Inherited::default()), inter)
+            };
+            let nbits = w.nbits;
+            for _ in 0..1 + rng.below(3) {
+                if inter {
+                    w.put(0, 1);
+                }
+                w.put(1, 9);
+            }
+            let (bytes, _) = finish(w);
+            let got = parse(&bytes, sorenson, false, None);
+            rep.evaluations += 1;
+            match got {
+                Err(p) => rep.violation(format!("panic@{}", p.loc), format!("header followed by stuffing panicked: {}", p.msg), coords()),
+                Ok(Parsed { pic: Some(p), bits, .. }) => {
+                    let d = exp_view.diff(&view_of(&p));
+                    if let Some(f) = d.first() {
+                        rep.violation(format!("hdr/{}/{}/before-stuffing", if sorenson { "sorenson" } else { "std" }, f.split(':').next().unwrap_or("?")), format!("header followed by stuffing: {} :: {}", f, hex(&bytes[..bytes.len().min(24)])), coords());
+                    } else if bits != nbits {
+                        rep.violation(format!("hdr/{}/consumed-bits/before-stuffing", if sorenson { "sorenson" } else { "std" }), format!("header of {} bits followed by MCBPC stuffing: the parser consumed {} bits :: {}", nbits, bits, hex(&bytes[..bytes.len().min(24)])), coords());
+                    } else {
+                        rep.count("headers_followed_by_stuffing_matched");
+                    }
+                }
+                Ok(Parsed { err, .. }) => rep.violation("hdr/rejected/before-stuffing", format!("valid header followed by stuffing rejected: {:?} :: {}", err, hex(&bytes[..bytes.len().min(24)])), coords()),
+            }
+        }
+    }
     // ---- the GOB / picture start-code probe: "a picture starts here" must leave the reader where it was ----
     if s == 59 {
         set("gob probe");
@@ -953,8 +1001,31 @@ fn shard(ctx: &Ctx, s: usize, n_random: u64, thorough: bool, rep: &mut Report) {
                 // the size may be spelled differently from picture to picture (size code of its own, 8-bit or 16-bit fields)
                 cfg.prefer_fixed_size_code = rng.chance(1, 2);
                 cfg.force16 = flavour.sorenson() && rng.chance(1, 3);
-                let kind = rng.below(3);
-                let pic = if kind == 0 {
+                let mut kind = rng.below(3);
+                // a predicted / disposable picture made of intra macroblocks only may change the size as well
+                // (it needs no reference); it must then report its own header and size
+                let intra_only_resize = kind != 0 && flavour != Flavour::StdFixed && rng.chance(1, 5);
+                // a *disposable* picture does not become the reference: the size in force for later predicted pictures stays
+                let size_before = (w, h);
+                let restore_size = intra_only_resize && kind == 2 && flavour.sorenson();
+                let pic = if intra_only_resize {
+                    let s2 = gen_size(&mut rng, 40);
+                    (w, h) = if flavour.sorenson() { s2 } else { (((s2.0 + 3) / 4 * 4).clamp(4, 2048), ((s2.1 + 3) / 4 * 4).clamp(4, 1152)) };
+                    cfg.w = w;
+                    cfg.h = h;
+                    let mut q = gen_intra(&mut rng, &cfg);
+                    match &mut q.hdr {
+                        Hdr::Sor(hd) => hd.ptype = kind as u8,
+                        Hdr::Std(hd) => {
+                            hd.inter = true;
+                            if let Some(pl) = hd.plus.as_mut() {
+                                pl.ptype = 1;
+                            }
+                        }
+                    }
+                    kind = 3;
+                    q
+                } else if kind == 0 {
                     if flavour != Flavour::StdFixed && rng.chance(1, 2) {
                         let s2 = gen_size(&mut rng, 40);
                         (w, h) = if flavour.sorenson() { s2 } else { (((s2.0 + 3) / 4 * 4).clamp(4, 2048), ((s2.1 + 3) / 4 * 4).clamp(4, 1152)) };
@@ -967,13 +1038,17 @@ fn shard(ctx: &Ctx, s: usize, n_random: u64, thorough: bool, rep: &mut Report) {
                     super::c04::vector_field_picture(&mut rng, &cfg, disp)
                 };
                 let mut pic = pic;
-                let formatless = kind != 0 && flavour == Flavour::StdPlus && rng.chance(2, 3) && drop_format(&mut pic);
+                let formatless = kind != 0 && kind != 3 && flavour == Flavour::StdPlus && rng.chance(2, 3) && drop_format(&mut pic);
                 let bytes = pic.encode();
                 rep.evaluations += 1;
                 match dec.decode(&bytes) {
                     Outcome::Ok => {}
                     Outcome::Err(k) if formatless => {
                         rep.violation(format!("decoded-size/history/format-in-force-lost/{}", k), format!("picture {} of a history does not restate its format ({}x{} is in force) and is rejected with {}", step + 1, w, h, k), coords());
+                        break;
+                    }
+                    Outcome::Err(k) if kind == 3 => {
+                        rep.violation(format!("decoded-size/history/intra-only-picture-of-new-size-rejected/{}", k), format!("picture {} of a history is a predicted picture of intra macroblocks only that states the new size {}x{}; it is rejected with {}", step + 1, w, h, k), coords());
                         break;
                     }
                     Outcome::Err(k) if kind != 0 => {
@@ -985,6 +1060,9 @@ fn shard(ctx: &Ctx, s: usize, n_random: u64, thorough: bool, rep: &mut Report) {
                         rep.count(&format!("skipped:decode:{}", o.short()));
                         break;
                     }
+                }
+                if kind == 3 {
+                    rep.count("decoded_intra_only_predicted_picture_of_new_size");
                 }
                 if formatless {
                     rep.count("decoded_without_restated_format");
@@ -1009,6 +1087,11 @@ fn shard(ctx: &Ctx, s: usize, n_random: u64, thorough: bool, rep: &mut Report) {
                 } else {
                     rep.count("decoded_picture_header_checked_in_history");
                     rep.distinct.insert(fnv64(&bytes));
+                }
+                if restore_size {
+                    (w, h) = size_before;
+                    cfg.w = w;
+                    cfg.h = h;
                 }
             }
         }
